@@ -231,6 +231,26 @@ func genStaticCase(r *prng.R) staticCase {
 	return sc
 }
 
+// hasOrderTies: more than 12 series, and some key has two non-empty series with the same
+// alignment - the frames in which only the relative order can tell a permutation apart.
+func hasOrderTies(f []mSeries) bool {
+	if len(f) <= 12 {
+		return false
+	}
+	seen := map[[2]uint64]bool{}
+	for _, s := range f {
+		if s.N == 0 {
+			continue
+		}
+		k := [2]uint64{uint64(s.Key), s.Align}
+		if seen[k] {
+			return true
+		}
+		seen[k] = true
+	}
+	return false
+}
+
 func nontrivial(f []mSeries) bool {
 	for _, s := range f {
 		if s.N > 0 {
@@ -260,6 +280,9 @@ func layerStatic(h *harness.H) {
 			}
 			h.Count("frames_roundtripped", 1)
 			h.Count("bytes_encoded", o.Bytes)
+			if i < len(sc.Frames) && hasOrderTies(sc.Frames[i]) {
+				h.Count("frames_with_same_alignment_ties", 1)
+			}
 			h.Seen("flag_bytes_static", fmt.Sprint(o.Flags&63))
 			h.Seen("flag_bytes", fmt.Sprint(o.Flags&63))
 			for b := 0; b < 6; b++ {
@@ -690,6 +713,9 @@ func layerDynamic(h *harness.H) {
 			}
 			h.Count("frames_roundtripped", 1)
 			h.Count("frames_roundtripped_dynamic", 1)
+			if hasOrderTies(st.Series) {
+				h.Count("frames_with_same_alignment_ties", 1)
+			}
 			h.Seen("flag_bytes", fmt.Sprint(o.Flags&63))
 			h.Seen("wraps", dc.Wrap)
 			if nontrivial(st.Series) {
